@@ -17,6 +17,7 @@ import Wharf.Model.TreeValidate
 import Wharf.Model.SafeKeeper
 import Wharf.Model.Archive
 import Wharf.Model.Heal
+import Wharf.Model.Commit
 
 open Wharf Wharf.Util
 
@@ -461,6 +462,35 @@ def doHeal (args : List String) : IO String := do
     | .panic p => return s!"panic {p}"
   | _ => return "bad-op"
 
+def buildOfListing (l : List (String × FS.Path × FS.Node)) : Commit.Build :=
+  { dirs := l.filterMap fun (k, p, _) => if k == "d" then some p else none
+    files := l.filterMap fun (_, p, n) => match n with | .file d => some (p, d) | _ => none
+    symlinks := l.filterMap fun (_, p, n) => match n with | .symlink d => some (p, d) | _ => none }
+
+/-- `commit <bs> <msgfile> <old listing> <new listing>`: in-place application of the patch onto the old tree -/
+def doCommit (args : List String) : IO String := do
+  match args with
+  | [bsS, mf, olf, nlf] =>
+    let msgs ← readMsgs mf
+    let old := buildOfListing (← readListing olf)
+    let new := buildOfListing (← readListing nlf)
+    let olds := (old.files.map (·.2)).toArray
+    let E : Patch.Env := { bs := parseNat bsS, oldSizes := olds.map (·.length), newSizes := (new.files.map (·.2.length)).toArray,
+                           pool := Patch.plainPool olds, whitelist := none }
+    match Patch.patch E msgs with
+    | .err _ => return "patch-err"
+    | .panic p => return s!"panic {p}"
+    | .ok r =>
+      let w := r.calls.foldl (fun w c => match c with
+        | .getWriter i => Commit.recordWriter old new w i
+        | .transpose s t => Commit.recordTranspose w s t) ({} : Commit.Work)
+      let ts := w.transpositions.filterMap fun (_, tg) => (old.files[tg]?).map (·.1)
+      let order := ts.eraseDups
+      match Commit.commit old new w order order (Commit.treeOfBuild old) with
+      | .error e => return s!"err {repr e}"
+      | .ok t => return "ok " ++ ";".intercalate (showTree t)
+  | _ => return "bad-op"
+
 def dispatch (line : String) : IO String := do
   match line.trimAscii.toString.splitOn " " with
   | "c11" :: args => doC11 args
@@ -475,6 +505,7 @@ def dispatch (line : String) : IO String := do
   | "patchsk" :: args => doPatchSk args
   | "extract" :: args => doExtract args
   | "heal" :: args => doHeal args
+  | "commit" :: args => doCommit args
   | "c13parse" :: args => doC13Parse args
   | "analyze" :: args => doAnalyze args
   | "optimize" :: args => doOptimize args
